@@ -1,5 +1,5 @@
 (* C11 — Saving a model to .ode and loading it back preserves the model. *)
-From GX Require Import Base Expr Topo Ode Target Sem Codegen Load Save Perm Annot LoadPerm SaveLoad.
+From GX Require Import Base Expr Topo Ode Target Sem Codegen Load Save Perm Annot LoadPerm SaveLoad Parse.
 From Coq Require Import Permutation.
 Open Scope string_scope.
 Open Scope list_scope.
@@ -77,3 +77,25 @@ Print Assumptions C11_same_definitions_same_layout.
    printer (sympy's StrPrinter with gotranx's overrides) is read back with the same meaning, are
    checked by execution on every run (model-level round trip in the extracted code, and numeric
    comparison of the reloaded implementation model). *)
+
+(* the text level of a right-hand side: the expression grammar of ode.lark, as a parser over tokens that is compared
+   with Lark on every expression of every generated, saved and decorated text.  Every expression of the language
+   (variables that are not keywords; no "not equal", which the language lacks) can be written so that it is read back as
+   exactly that expression - followed by whatever stood behind it, so also inside argument lists and parentheses - and two
+   expressions written the same way are equal *)
+Theorem C11_every_expression_has_a_text_that_is_read_back_as_itself :
+  forall e, writable e -> parse_expr (print_expr e) = Some e.
+Proof. exact parse_print. Qed.
+Print Assumptions C11_every_expression_has_a_text_that_is_read_back_as_itself.
+
+Theorem C11_written_expressions_are_read_back_in_any_context :
+  forall e, writable e ->
+    forall m, (6 * List.length (print_expr e) <= m)%nat ->
+    forall rest, stop rest -> p_expr (P m) (print_expr e ++ rest) = Some (e, rest).
+Proof. exact print_then_parse. Qed.
+Print Assumptions C11_written_expressions_are_read_back_in_any_context.
+
+Theorem C11_the_written_form_determines_the_expression :
+  forall a b, writable a -> writable b -> print_expr a = print_expr b -> a = b.
+Proof. exact print_expr_injective. Qed.
+Print Assumptions C11_the_written_form_determines_the_expression.
